@@ -105,8 +105,13 @@ def parse_args(
                     "or EXECUTE:..." % (v,))
 
         def set_actions(actions):
-            actions = tuple(actions)
-            parser.values.actions = actions
+            # Keep the symlink policy (always the first action) in place.
+            symlink_actions = tuple(
+                a for a in (getattr(parser.values, 'actions', None) or ())
+                if a in symlink_callbacks.values())
+            actions = tuple(a for a in actions
+                            if a not in symlink_callbacks.values())
+            parser.values.actions = symlink_actions + actions
 
         def action_callback(option, opt_str, value, parser):
             action_args = value.split(',')
